@@ -44,6 +44,19 @@ func (fx *FuncVC) execCall(fr *frame, c *ssa.CallCommon, pos token.Pos, instr ss
 func (fx *FuncVC) callValue(fr *frame, fv Val, args []Val, pos token.Pos, instr ssa.Value) Val {
 	f, ok := fv.(FuncV)
 	if !ok {
+		if fx.spec != nil && fx.spec.Options["callback-frame"] != "" {
+			// a callback (function value from a field or parameter): under the stated assumption it writes
+			// nothing this function reads; a nil function value panics
+			if sc, isSc := fv.(Sc); isSc && sc.T.Sort == SInt {
+				fx.oblige("nil", Not(Eq(sc.T, IntC(0))), pos, "function value is not nil")
+				fx.assume(Not(Eq(sc.T, IntC(0))))
+			}
+			fx.trusted["ASSUMED (option callback-frame): functions called through function values (callbacks such as the parser listener) do not write memory this function reads"] = true
+			if call, isCall := instr.(*ssa.Call); isCall {
+				return fx.freshResult(call.Call.Signature(), "cb")
+			}
+			return nil
+		}
 		panic(unsupported("call of a non-static function value"))
 	}
 	fn := f.Fn
